@@ -44,6 +44,11 @@ func newDataStoreSet(l lane.Lane, basePath string, phook *DispatchHook) *dataSto
 		fileBase += ".db"
 
 		filepath.WalkDir(dir, func(path string, d fs.DirEntry, err error) error {
+			if d.IsDir() && path != dir {
+				// the data store files are in dir itself; a subdirectory may hold the files of
+				// another emulator (or a copy) with the same base name
+				return fs.SkipDir
+			}
 			if !d.IsDir() {
 				if strings.HasPrefix(d.Name(), fileBase) {
 					n64, parseErr := strconv.ParseInt(d.Name()[len(fileBase):], 10, 32)
